@@ -113,6 +113,7 @@ func (c *Ctx) instrs(fn *ssa.Function, p InstrPred) []ssa.Instruction {
 		}
 	}
 	if fn != nil {
+		c.anchorHint = fn
 		visit(fn)
 		// helpers extracted from fn (functions not in the frozen list) are searched as part of fn
 		for _, h := range c.newCallees(fn) {
